@@ -71,11 +71,6 @@ Print Assumptions T_C13_detect_stream.
 
 (* ------------------------------------------------------------------ chunked reading is lossless *)
 
-Example lossless_refuted_witness :
-  esr_run 32 W8 Skip [] 100 (stream_of (with_bom false Utf8 [0x61; 0; 0x62]%N) true) =
-    RunDone [ChSuccess; ChEndFile] [0x61; 0xE2; 0x98; 0x90]%N Utf16le.
-Proof. vm_compute. reflexivity. Qed.
-
 (* full strength: for every chunk size, scheme, BOM choice, target width, policy and text that has
    a BOM or starts with an ASCII character, the chunks concatenate to the text in the target
    encoding and the scheme is reported.  False exactly through the two detection defects *)
